@@ -280,4 +280,240 @@ theorem mutateCtr_non_tier (pc : PC) (h : ¬ IsTier pc) (c : Ctr) : mutateCtr pc
   simp [mutateCtr, translated, restrict, replaceBoth, replaceAndErase, hn]
 
 
+/-! ### pod level -/
+
+theorem tier_not_skipped {pc : PC} (h : IsTier pc) : ¬ (pc = PC.none ∨ pc = PC.prod) := by
+  rcases h with rfl | rfl <;> simp
+
+theorem mutate_tier_form (k : Ranges) (p : Pod) (h : IsTier (pcWithDefault k p)) :
+    mutatePodResourceSpec k p =
+      { p with inits := p.inits.map (mutateCtr (pcWithDefault k p)), ctrs := p.ctrs.map (mutateCtr (pcWithDefault k p)),
+               overhead := p.overhead.map (replaceBoth (pcWithDefault k p)) } := by
+  unfold mutatePodResourceSpec
+  simp only [tier_not_skipped h, if_false]
+
+/-- 8. pods whose class is prod, none or free are left untouched by the translation. -/
+theorem pod_untouched_without_tier (k : Ranges) (p : Pod) (h : ¬ IsTier (pcWithDefault k p)) :
+    mutatePodResourceSpec k p = p := by
+  unfold mutatePodResourceSpec
+  simp only []
+  split
+  · rfl
+  · have hc : mutateCtr (pcWithDefault k p) = id := funext (mutateCtr_non_tier _ h)
+    have ho : replaceBoth (pcWithDefault k p) = id := by
+      funext o; funext x
+      cases hpc : pcWithDefault k p <;> simp_all [IsTier, replaceBoth, replaceAndErase, resourceNameMap]
+    rw [hc, ho]
+    cases p
+    simp
+
+theorem prod_none_untouched (k : Ranges) (p : Pod) (h : pcWithDefault k p = PC.prod ∨ pcWithDefault k p = PC.none) :
+    mutatePodResourceSpec k p = p := by
+  apply pod_untouched_without_tier
+  rcases h with h | h <;> simp [IsTier, h]
+
+/-- 4 (pod level). after translating a mid/batch pod no container, init container or the
+    overhead names cpu or memory. -/
+theorem pod_native_erased (k : Ranges) (p : Pod) (h : IsTier (pcWithDefault k p)) :
+    (∀ c ∈ (mutatePodResourceSpec k p).ctrs ++ (mutatePodResourceSpec k p).inits,
+        c.req Res.cpu = none ∧ c.req Res.memory = none ∧ c.lim Res.cpu = none ∧ c.lim Res.memory = none) ∧
+    (∀ o, (mutatePodResourceSpec k p).overhead = some o → o Res.cpu = none ∧ o Res.memory = none) := by
+  rw [mutate_tier_form k p h]
+  constructor
+  · intro c hc
+    simp only [List.mem_append, List.mem_map] at hc
+    rcases hc with ⟨c0, _, rfl⟩ | ⟨c0, _, rfl⟩ <;> exact native_erased _ h c0
+  · intro o ho
+    simp only [Option.map_eq_some_iff] at ho
+    obtain ⟨o0, _, rfl⟩ := ho
+    exact native_erased_list _ h o0
+
+theorem kubeBE_after (p : Pod) (pc : PC) (h : IsTier pc) (o : Option RL) (hb : kubeBestEffort p = true) :
+    kubeBestEffort { p with inits := p.inits.map (mutateCtr pc), ctrs := p.ctrs.map (mutateCtr pc), overhead := o } = true := by
+  unfold kubeBestEffort at hb ⊢
+  simp only []
+  by_cases h1 : p.statusQoS = 1
+  · simp [h1]
+  · by_cases h2 : p.statusQoS = 2
+    · simp [h1, h2] at hb
+    · simp only [h1, h2, if_false]
+      rw [List.all_eq_true]
+      intro c hc
+      simp only [List.mem_append, List.mem_map] at hc
+      rcases hc with ⟨c0, _, rfl⟩ | ⟨c0, _, rfl⟩ <;>
+        (obtain ⟨e1, e2, e3, e4⟩ := native_erased pc h c0; simp [ctrNoQoSResources, positive, e1, e2, e3, e4])
+
+/-- the class that drives the translation is not changed by the translation (the default
+    derived from the Kubernetes QoS stays BestEffort once cpu/memory are gone). -/
+theorem pcWithDefault_stable (k : Ranges) (p : Pod) :
+    pcWithDefault k (mutatePodResourceSpec k p) = pcWithDefault k p := by
+  by_cases h : IsTier (pcWithDefault k p)
+  · rw [mutate_tier_form k p h]
+    generalize hpc : pcWithDefault k p = pc at h
+    unfold pcWithDefault at hpc ⊢
+    simp only [] at hpc ⊢
+    have e1 : ∀ (a b : List Ctr) (o : Option RL), pcRaw k { p with inits := a, ctrs := b, overhead := o } = pcRaw k p := fun _ _ _ => rfl
+    have e2 : ∀ (a b : List Ctr) (o : Option RL), qosRaw { p with inits := a, ctrs := b, overhead := o } = qosRaw p := fun _ _ _ => rfl
+    rw [e1, e2]
+    by_cases hc : pcRaw k p ≠ PC.none
+    · simp only [hc, if_true] at hpc ⊢; exact hpc
+    · by_cases hq : qosRaw p ≠ QoS.none
+      · simp only [hc, hq, if_true, if_false] at hpc ⊢; exact hpc
+      · simp only [hc, hq, if_false] at hpc ⊢
+        have hb : kubeBestEffort p = true := by
+          cases hk : kubeBestEffort p
+          · rw [hk] at hpc; simp at hpc; subst hpc; simp [IsTier] at h
+          · rfl
+        rw [kubeBE_after p pc h _ hb]
+        rw [hb] at hpc
+        exact hpc
+  · rw [pod_untouched_without_tier k p h]
+
+/-- 7 (translation). translating the translated pod changes nothing. -/
+theorem mutatePodResourceSpec_idempotent (k : Ranges) (p : Pod) :
+    mutatePodResourceSpec k (mutatePodResourceSpec k p) = mutatePodResourceSpec k p := by
+  by_cases h : IsTier (pcWithDefault k p)
+  · have hs := pcWithDefault_stable k p
+    have h' : IsTier (pcWithDefault k (mutatePodResourceSpec k p)) := by rw [hs]; exact h
+    rw [mutate_tier_form k _ h', hs, mutate_tier_form k p h]
+    have hcomp : mutateCtr (pcWithDefault k p) ∘ mutateCtr (pcWithDefault k p) = mutateCtr (pcWithDefault k p) :=
+      funext (mutateCtr_idempotent _)
+    have hov : replaceBoth (pcWithDefault k p) ∘ replaceBoth (pcWithDefault k p) = replaceBoth (pcWithDefault k p) := by
+      funext o
+      obtain ⟨a, b⟩ := native_erased_list _ h o
+      exact replaceBoth_noop _ _ a b
+    simp only [List.map_map, Option.map_map, hcomp, hov]
+  · rw [pod_untouched_without_tier k p h, pod_untouched_without_tier k p h]
+
+/-! ### 6. the summary annotation -/
+
+def specLookup (n : Nat) (s : List ExtCtr) : Option ExtCtr := s.find? (fun e => e.name = n)
+
+def annotSpec : Annot → List ExtCtr
+  | Annot.spec s => s
+  | _ => []
+
+theorem specLookup_insert (e : ExtCtr) (s : List ExtCtr) (n : Nat) :
+    specLookup n (specInsert e s) = if e.name = n then some e else specLookup n s := by
+  induction s with
+  | nil => by_cases h : e.name = n <;> simp [specLookup, specInsert, h]
+  | cons x xs ih =>
+    unfold specInsert
+    by_cases h1 : e.name < x.name
+    · by_cases h : e.name = n <;> simp [specLookup, h1, h]
+    · by_cases h2 : e.name = x.name
+      · by_cases h : e.name = n
+        · simp [specLookup, h1, h2, h]; intro hx; omega
+        · have : ¬ x.name = n := by omega
+          simp [specLookup, h1, h2, h, this]
+      · simp only [h1, h2, if_false]
+        by_cases hx : x.name = n
+        · have : ¬ e.name = n := by omega
+          simp [specLookup, hx, this]
+        · have ih' := ih
+          simp only [specLookup] at ih' ⊢
+          simp [hx, ih']
+
+theorem ctrExt_name (c : Ctr) (e : ExtCtr) (h : ctrExt c = some e) : e.name = c.name := by
+  unfold ctrExt at h
+  simp only [] at h
+  split at h
+  · cases h
+  · cases h; rfl
+
+theorem specFold_notin (cs : List Ctr) (acc : List ExtCtr) (n : Nat) (hn : n ∉ cs.map (·.name)) :
+    specLookup n (cs.foldl (fun m c => match ctrExt c with | none => m | some e => specInsert e m) acc) = specLookup n acc := by
+  induction cs generalizing acc with
+  | nil => rfl
+  | cons c rest ih =>
+    simp only [List.map_cons, List.mem_cons, not_or] at hn
+    rw [List.foldl_cons, ih _ hn.2]
+    cases he : ctrExt c with
+    | none => rfl
+    | some e =>
+      simp only []
+      rw [specLookup_insert, ctrExt_name c e he]
+      have : ¬ c.name = n := fun h => hn.1 h.symm
+      simp [this]
+
+theorem specFold_in (cs : List Ctr) (acc : List ExtCtr) (c : Ctr) (hnd : (cs.map (·.name)).Nodup) (hc : c ∈ cs) :
+    specLookup c.name (cs.foldl (fun m c => match ctrExt c with | none => m | some e => specInsert e m) acc) =
+      match ctrExt c with
+      | some e => some e
+      | none => specLookup c.name acc := by
+  induction cs generalizing acc with
+  | nil => cases hc
+  | cons d rest ih =>
+    simp only [List.map_cons, List.nodup_cons] at hnd
+    rw [List.foldl_cons]
+    rcases List.mem_cons.mp hc with rfl | hr
+    · rw [specFold_notin rest _ _ hnd.1]
+      cases he : ctrExt c with
+      | none => rfl
+      | some e => simp only []; rw [specLookup_insert, ctrExt_name c e he]; simp
+    · rw [ih _ hnd.2 hr]
+      have hne : ¬ d.name = c.name := by
+        intro heq; apply hnd.1; rw [heq]; exact List.mem_map.mpr ⟨c, hr, rfl⟩
+      cases ctrExt c with
+      | some e => rfl
+      | none =>
+        simp only []
+        cases he : ctrExt d with
+        | none => rfl
+        | some e => simp only []; rw [specLookup_insert, ctrExt_name d e he]; simp [hne]
+
+/-- 6. `annotation_matches_spec`: after the summary step the annotation is exactly the batch
+    projection of the final containers — per container (unique names) its requests/limits of
+    batch-cpu/batch-memory, no entry for a container without any, no entry for a foreign name.
+    The spec itself is not changed by this step. -/
+theorem annotation_matches_spec (p p' : Pod) (h : mutateByExt p = some p') :
+    p'.ctrs = p.ctrs ∧ p'.inits = p.inits ∧ p'.overhead = p.overhead ∧
+    annotSpec p'.annot = specOf p'.ctrs ∧
+    ((p'.ctrs.map (·.name)).Nodup →
+      (∀ c ∈ p'.ctrs, specLookup c.name (annotSpec p'.annot) = ctrExt c) ∧
+      (∀ n, n ∉ p'.ctrs.map (·.name) → specLookup n (annotSpec p'.annot) = none)) := by
+  have hcore : p'.ctrs = p.ctrs ∧ p'.inits = p.inits ∧ p'.overhead = p.overhead ∧ annotSpec p'.annot = specOf p'.ctrs := by
+    unfold mutateByExt at h
+    simp only [] at h
+    cases ha : p.annot with
+    | malformed => rw [ha] at h; cases h
+    | absent =>
+      rw [ha] at h; simp only [] at h
+      split at h
+      · next he => cases h; simp [annotSpec, ha, he]
+      · cases h; simp [annotSpec]
+    | spec old =>
+      rw [ha] at h; simp only [] at h
+      split at h
+      · next he => cases h; simp [annotSpec, ha, he]
+      · cases h; simp [annotSpec]
+  obtain ⟨h1, h2, h3, h4⟩ := hcore
+  refine ⟨h1, h2, h3, h4, ?_⟩
+  intro hnd
+  rw [h4]
+  constructor
+  · intro c hc
+    have := specFold_in p'.ctrs [] c hnd hc
+    unfold specOf
+    rw [this]
+    cases ctrExt c <;> rfl
+  · intro n hn
+    unfold specOf
+    rw [specFold_notin p'.ctrs [] n hn]; rfl
+
+/-- 7 (annotation). the summary step is idempotent. -/
+theorem mutateByExt_idempotent (p p' : Pod) (h : mutateByExt p = some p') : mutateByExt p' = some p' := by
+  obtain ⟨h1, _, _, h4, _⟩ := annotation_matches_spec p p' h
+  unfold mutateByExt at h ⊢
+  simp only [] at h ⊢
+  cases ha' : p'.annot with
+  | malformed =>
+    cases ha : p.annot with
+    | malformed => rw [ha] at h; cases h
+    | absent => rw [ha] at h; simp only [] at h; split at h <;> cases h <;> simp_all
+    | spec old => rw [ha] at h; simp only [] at h; split at h <;> cases h <;> simp_all
+  | absent => rw [ha'] at h4; simp [annotSpec] at h4; simp [← h4]
+  | spec s => rw [ha'] at h4; simp [annotSpec] at h4; simp [h4]
+
+
 end KoordVerif.C13
